@@ -316,7 +316,7 @@ fn multi_archive_check(check: &Check) {
     let dir = engine::scratch("c09m");
     let mut paths = vec![];
     for a in 0..5u32 {
-        let p = dir.path().join(format!("m{a}.mpq"));
+        let p = dir.path().join(["patch.mpq", "patch-2.mpq", "common.mpq", "part_10.mpq", "part_2.mpq"][a as usize]);
         let mut files: Vec<FileSpec> = (0..6)
             .map(|i| FileSpec {
                 name: format!("common/f{i}.dat"),
@@ -392,6 +392,86 @@ fn multi_archive_check(check: &Check) {
     }
 }
 
+/// The command-line front end of the parallel extraction (anchored in warcraft-rs/src/commands/mpq.rs):
+/// with --skip-errors a failing name affects only its own slot (the command does not fail as a whole and
+/// every other requested file is written), without it the command fails as a whole — whatever the length of
+/// the request list and the position of the failing names.
+fn cli_skip_errors(check: &Check) {
+    let cli = std::env::var("VERIF_CLI").unwrap_or_else(|_| "/verif/target/repo/debug/warcraft-rs".into());
+    if !std::path::Path::new(&cli).exists() {
+        check.inconclusive(&format!("CLI binary {cli:?} not found (set VERIF_CLI or run /verif/check C09)"));
+        return;
+    }
+    let dir = engine::scratch("c09cli");
+    let arch = dir.path().join("a.mpq");
+    let files: Vec<(String, Vec<u8>)> = (0..4usize).map(|i| (format!("f{i}.bin"), (0..(50 + i * 7000)).map(|k| ((k * 13 + i) % 251) as u8).collect())).collect();
+    let mut b = wow_mpq::ArchiveBuilder::new().version(wow_mpq::FormatVersion::V1).listfile_option(wow_mpq::ListfileOption::Generate);
+    for (n, d) in &files {
+        b = b.add_file_data(d.clone(), n);
+    }
+    if let Err(e) = b.build(&arch) {
+        check.inconclusive(&format!("cli clause: cannot build the archive: {e}"));
+        return;
+    }
+    // request lists: P = present (index), M = missing
+    let lists: Vec<Vec<Option<usize>>> = vec![
+        vec![None],
+        vec![Some(0)],
+        vec![Some(2), None],
+        vec![None, Some(1)],
+        vec![Some(0), None, Some(3)],
+        vec![None, None],
+        vec![Some(3), Some(1), Some(2)],
+    ];
+    let mut run = 0;
+    for list in &lists {
+        for skip in [false, true] {
+            for threads in [None, Some(1u8), Some(4)] {
+                run += 1;
+                let out = dir.path().join(format!("out{run}"));
+                let names: Vec<String> = list.iter().enumerate().map(|(k, e)| e.map(|i| files[i].0.clone()).unwrap_or_else(|| format!("missing_{k}.bin"))).collect();
+                let mut cmd = std::process::Command::new(&cli);
+                cmd.args(["mpq", "extract"]).arg(&arch).arg("-o").arg(&out);
+                if let Some(t) = threads {
+                    cmd.args(["--threads", &t.to_string()]);
+                }
+                if skip {
+                    cmd.arg("--skip-errors");
+                }
+                cmd.arg("--").args(&names).stdin(std::process::Stdio::null());
+                let o = match cmd.output() {
+                    Ok(o) => o,
+                    Err(e) => {
+                        check.inconclusive(&format!("cli clause: cannot run {cli:?}: {e}"));
+                        return;
+                    }
+                };
+                let n_missing = list.iter().filter(|e| e.is_none()).count();
+                check.count(&format!("cli:names{}:missing{}:skip{}:thr{}", list.len(), n_missing.min(2), skip as u8, threads.map(|t| t.to_string()).unwrap_or("-".into())), n_missing > 0);
+                let shown = format!("`mpq extract a.mpq -o out{}{} -- {}` → exit {:?}, stderr {:?}", threads.map(|t| format!(" --threads {t}")).unwrap_or_default(), if skip { " --skip-errors" } else { "" }, names.join(" "), o.status.code(), engine::truncate(&String::from_utf8_lossy(&o.stderr), 200));
+                let case = json!({"cli": {"names": names, "skip_errors": skip, "threads": threads}});
+                if n_missing > 0 && !skip {
+                    if o.status.success() {
+                        check.fail(&engine::Fail::new("cli-extract-exit0-with-missing-name-without-skip-errors", shown.clone()), case.clone());
+                    }
+                    continue;
+                }
+                if !o.status.success() {
+                    let sig = if n_missing > 0 { "cli-extract-fails-as-a-whole-despite-skip-errors" } else { "cli-extract-fails-on-present-names" };
+                    check.fail(&engine::Fail::new(sig, format!("{shown} — {} of {} requested names exist and a failing name may only affect its own slot", list.len() - n_missing, list.len())), case.clone());
+                    continue;
+                }
+                for e in list.iter().flatten() {
+                    let got = std::fs::read(out.join(&files[*e].0)).ok();
+                    if got.as_ref() != Some(&files[*e].1) {
+                        check.fail(&engine::Fail::new("cli-extract-present-name-not-written-identically", format!("{shown} — {:?} is {} in the output directory", files[*e].0, got.map(|g| format!("{} other bytes", g.len())).unwrap_or("absent".into()))), case.clone());
+                    }
+                }
+            }
+        }
+    }
+}
+
 /// Generated cases for the multi-archive helpers: 0..9 archives with overlapping file sets, a single
 /// name / a name list (duplicates, case and slash variants, missing names) / a search pattern /
 /// a processor; each helper must return one entry per archive in the order given, equal to what
@@ -427,8 +507,10 @@ fn multi_archive_generated(check: &Check, cases: usize) {
                 })
                 .collect();
             let spec = ArchiveSpec { version: rng.random_range(1..=4), shift: rng.random_range(0..3), crcs: false, attrs: Attrs::None, listfile: true, compress_tables: false, table_method: M_ZLIB, files };
-            let p = dir.path().join(format!("g{a}.mpq"));
-            if spec.builder().build(&p).is_err() {
+            // archive file names in the order a caller chooses (load order), which is not the order of the
+            // path names: patch-2 sorts before patch, part_10 before part_2
+            let p = dir.path().join(["patch.mpq", "patch-2.mpq", "common.mpq", "part_10.mpq", "part_2.mpq", "Zeta.mpq", "alpha.mpq", "expansion.mpq", "base.mpq"][(a + case) % 9]);
+            if paths.contains(&p) || spec.builder().build(&p).is_err() {
                 continue;
             }
             paths.push(p);
@@ -631,6 +713,7 @@ fn main() {
     }
 
     multi_archive_check(&check);
+    cli_skip_errors(&check);
     multi_archive_generated(&check, check.tier.pick(60usize, 1500));
     let g = grid(check.tier == engine::Tier::Thorough);
     for c in &g {
